@@ -38,6 +38,7 @@ type Build struct {
 	Coarse []string          // files whose atomics are not scheduling points
 	Consts map[string]string // "file.go:name" -> literal
 	Track  bool              // happens-before probes
+	Race   bool              // build with -race (free-running cross-check)
 	GoCmd  string            // toolchain ("" = go)
 }
 
@@ -412,7 +413,11 @@ func buildAll(scratch, key string, b Build, pkgs map[string]bool) (map[string]st
 			target = "."
 		}
 		bin := filepath.Join(dir, p+".test")
-		cmd := exec.Command(gocmd, "test", "-c", "-overlay", of, "-tags", tags, "-vet=off", "-o", bin, target)
+		args := []string{"test", "-c", "-overlay", of, "-tags", tags, "-vet=off", "-o", bin}
+		if b.Race {
+			args = append(args, "-race")
+		}
+		cmd := exec.Command(gocmd, append(args, target)...)
 		cmd.Dir = repo
 		cmd.Env = goEnv()
 		if o, err := cmd.CombinedOutput(); err != nil {
@@ -439,6 +444,7 @@ func runWorker(bin, scratch string, sc Scenario, shard, nshards int, tier, out, 
 		"VERIF_OUT="+out,
 		"VERIF_PARAMS="+sc.Params,
 		"VERIF_REPLAY="+replay,
+		"GORACE=log_path="+out+".race halt_on_error=0 exitcode=0",
 	)
 	o, err := cmd.CombinedOutput()
 	b, rerr := os.ReadFile(out)
